@@ -4,6 +4,7 @@ import CM.Driver.OpsRS
 import CM.Driver.OpsReg
 import CM.Driver.OpsSel
 import CM.Driver.OpsRun
+import CM.Driver.OpsDiff
 open Lean
 namespace CM.Driver
 
@@ -57,6 +58,8 @@ def dispatch (j : Json) : Except String Json := do
   | "selected" => opSelected j
   | "findings_for_line" => opFindingsForLine j
   | "run" => opRun j
+  | "unified_diff" => opUnifiedDiff j
+  | "patch_text" => opPatchText j
   | _ => .error s!"bad-op: unknown op {op}"
 
 end CM.Driver
